@@ -90,15 +90,17 @@ def project_ops(reader):
     return out
 
 
-def same_values(a, b):
-    """Exact for integer results; for floating-point results a few units in the last place are allowed:
-    NumPy's vectorised loops (pow, divide) may round differently depending on how many elements / which
-    strides they are given, so 'the same expression on the whole array' and 'on the selected rows' can
-    legitimately differ by an ulp."""
+def same_values(a, b, exact=True):
+    """Exact (also for floating-point results: + - * / and floor division are correctly rounded by IEEE 754,
+    whatever loop NumPy picks) unless the expression contains a power: NumPy's pow loops are not correctly
+    rounded and may round differently depending on how many elements / which strides they are given, so 'the
+    same expression on the whole array' and 'on the selected rows' can legitimately differ by an ulp there."""
     if a.shape != b.shape or a.dtype != b.dtype:
         return False
-    if a.dtype.kind != 'f':
-        return np.array_equal(a, b)
+    if a.dtype.kind != 'f' or exact:
+        if a.dtype.kind == 'f' and not np.array_equal(np.signbit(a) & (a == 0), np.signbit(b) & (b == 0)):
+            return False
+        return np.array_equal(a, b, equal_nan=a.dtype.kind == 'f')
     eps = np.finfo(a.dtype).eps
     with np.errstate(all='ignore'):
         if not np.array_equal(np.signbit(a) & (a == 0), np.signbit(b) & (b == 0)):
@@ -107,7 +109,7 @@ def same_values(a, b):
                            (np.abs(a - b) <= 4 * eps * np.maximum(np.abs(a), np.abs(b)))))
 
 
-def compare_reader(reader, eager, cbin, battery=None):
+def compare_reader(reader, eager, cbin, battery=None, exact=True):
     """Index `reader` with the battery; returns None if everything equals eager NumPy, else a
     description of the first difference."""
     for it in (battery or BATTERY):
@@ -117,7 +119,7 @@ def compare_reader(reader, eager, cbin, battery=None):
         e = eager[it]
         if isinstance(it, int):
             e = e[np.newaxis, :]
-        if not same_values(np.asarray(lazy), np.asarray(e)):
+        if not same_values(np.asarray(lazy), np.asarray(e), exact):
             return dict(item=repr(it), lazy=as_list(lazy), lazy_dtype=str(lazy.dtype),
                         eager=as_list(e), eager_dtype=str(e.dtype))
         if e.shape[1] >= 2 and not cbin:
@@ -125,7 +127,7 @@ def compare_reader(reader, eager, cbin, battery=None):
             if not isinstance(lz, np.ndarray):
                 lz = lz[:]        # reader[:, cols] is a reader again; its contents are compared
             ee = e[:, [1, 0]]
-            if not same_values(np.asarray(lz), np.asarray(ee)):
+            if not same_values(np.asarray(lz), np.asarray(ee), exact):
                 return dict(item=repr(it) + ', [1, 0]', lazy=as_list(lz), eager=as_list(ee))
     return None
 
@@ -171,7 +173,8 @@ def replay_history(ctx, case, backends):
                     try:
                         # the newest reader gets the full battery; older ones (isolation) a short one
                         diff = compare_reader(readers[x], eagers[x], cbin,
-                                              None if x == rid else BATTERY[2:4])
+                                              None if x == rid else BATTERY[2:4],
+                                              exact=not any('pow' in o[0] for o in case['ops'][x - 1]))
                     except Exception as ex:
                         diff = dict(raised='%s: %s' % (type(ex).__name__, ex))
                     if diff:
@@ -204,6 +207,7 @@ def _random_forest_records(ctx, backends, rng, rid0, steps):
     base, full = backends[bname]
     cbin = bname.startswith('cbin')
     readers, eagers = {1: base}, {1: full}
+    has_pow = {1: False}
     recs = [dict(id=rid0, op='begin')]
     with warnings.catch_warnings(), np.errstate(all='ignore'):
         warnings.simplefilter('ignore')
@@ -223,10 +227,11 @@ def _random_forest_records(ctx, backends, rng, rid0, steps):
                      UNOPS[name](rp) if name in UNOPS else BINOPS[name](rp, SCALARS[tok]))
             x = len(readers) + 1
             readers[x], eagers[x] = r_new, e_new
+            has_pow[x] = has_pow[parent] or 'pow' in name
             eq = True
             for y in readers:
                 try:
-                    if compare_reader(readers[y], eagers[y], cbin):
+                    if compare_reader(readers[y], eagers[y], cbin, exact=not has_pow[y]):
                         eq = False
                 except Exception:
                     eq = False
